@@ -11,3 +11,9 @@ Proof. intros mn mx xs. unfold gen_norm_obs, norm_with. destruct (Qeq_bool mn mx
 
 Theorem norm_irr_is_source : forall obs, norm_irr obs = map (gen_norm_obs (gmin obs) (gmax obs)) obs.
 Proof. intro obs. unfold norm_irr. apply map_ext. intro xs. symmetry. apply gen_norm_obs_is_model. Qed.
+
+(* dense data: the translated DenseArgvals.normalization is the model's [norm_dense] *)
+Theorem gen_norm_dense_is_model : forall xs, gen_norm_dense xs = norm_dense xs.
+Proof. intro xs. reflexivity. Qed.
+Theorem norm_dense_length : forall xs, length (norm_dense xs) = length xs.
+Proof. intro xs. unfold norm_dense. apply map_length. Qed.
